@@ -28,25 +28,26 @@ Theorem C03_nothing_handled_after_terminated : forall roles s u a ls s1 os s2 o,
 Proof. exact nothing_handled_after_terminated. Qed.
 Print Assumptions C03_nothing_handled_after_terminated.
 
-(* FULL statement of the first clause: "for each incarnation the first message handled is OnLaunch, preceded
-   only by OnRestarted when the incarnation results from a restart". It is FALSE of the faithful model (and of
-   the code): tryRestarted enqueues OnRestarted/OnLaunch behind system messages that are already queued, so a
-   terminate request that raced with the restart is handled first by the fresh instance. Witness: incarnation 1
-   of actor 0 handles OnTerminate and its own OnTerminated and never OnLaunch. (Open finding C03-restart-behind-pending.) *)
-Definition first_handled (a : ref) (inst : nat) (os : list (list obs)) : option trig :=
-  match filter (fun o => match o with OH a' i _ _ _ => (a' =? a) && Nat.eqb i inst | _ => false end) (concat os) with
-  | OH _ _ t _ _ :: _ => Some t
-  | _ => None
-  end.
+(* First clause: "for each incarnation the first message handled is OnLaunch, preceded only by OnRestarted when the
+   incarnation results from a restart". Until fix 'the fresh instance of a restart handles OnRestarted and OnLaunch
+   before anything that was already queued' this was FALSE of the model and of the code (tryRestarted enqueued
+   OnRestarted/OnLaunch behind system messages already queued, so a racing terminate or restart request or a
+   termination notice was the first thing the fresh instance saw; former theorem C03_first_is_launch_refuted, three
+   open findings). The restart now completes inside one step (start_instance). The universally quantified statement is
+   not proved yet: it is decided on every run by the monitor C03:first-not-launch and step equality with the model.
+   The former counter-example, now well-formed: incarnation 1 of actor 0 handles OnRestarted, OnLaunch, and only then
+   the terminate request that had raced with the restart. *)
+Definition handled_by (a : ref) (inst : nat) (os : list (list obs)) : list trig :=
+  flat_map (fun o => match o with OH a' i t _ _ => if (a' =? a) && Nat.eqb i inst then [t] else [] | _ => [] end) (concat os).
 
 Definition c03_roles : list role :=
   [ {| victim := Some DRestart; sup := []; rules := [ {| r_on := KP; r_n := 0; r_inst := 0; r_do := [APanic] |} ] |} ].
-Definition c03_labels : list label := [LSpawn 0 0; LRun 2; LTell 0 0; LRun 2; LRun 0; LTerm 0 false; LRun 2; LRun 2; LRun 2].
+Definition c03_labels : list label := [LSpawn 0 0; LRun 2; LTell 0 0; LRun 2; LRun 0; LTerm 0 false; LRun 2; LRun 2].
 
-Theorem C03_first_is_launch_refuted :
-  exists roles ls s os, krun roles kinit ls = Some (s, os) /\ first_handled 0 1 os = Some TT.
-Proof. exists c03_roles, c03_labels. eexists. eexists. split; vm_compute; reflexivity. Qed.
-Print Assumptions C03_first_is_launch_refuted.
+Example C03_restart_racing_with_terminate :
+  exists s os, krun c03_roles kinit c03_labels = Some (s, os) /\
+    handled_by 0 0 os = [TL; TP 0; TRG; TT; TTS] /\ handled_by 0 1 os = [TRD; TL; TT; TTS].
+Proof. eexists. eexists. split; [vm_compute; reflexivity|]. split; vm_compute; reflexivity. Qed.
 
 (* non-vacuity of the first theorem: a reachable state with a terminated actor that still has a queued message *)
 Example C03_example :
